@@ -17,7 +17,7 @@ os.chdir(ROOT)
 
 VENV_PY = os.environ.get('PYG_VENV_PY', '/venv/bin/python')
 REPO = os.environ.get('PYG_REPO', '/repo')
-LOCK = os.path.join(ROOT, 'obligations.lock.json')
+LOCKDIR = os.path.join(ROOT, 'locks')
 KNOWN = os.path.join(ROOT, 'known_findings.txt')
 
 from checks.props import PROPS   # noqa
@@ -37,10 +37,10 @@ def load_known():
     return findings, fixed
 
 
-def load_lock():
-    if os.path.exists(LOCK):
-        return json.load(open(LOCK))
-    return {}
+def load_lock(prop):
+    """names of the obligations discharged on the baseline tree (committed; regenerated only deliberately with `lock`)"""
+    p = os.path.join(LOCKDIR, prop + '.json')
+    return json.load(open(p)) if os.path.exists(p) else []
 
 
 def base_name(n):
@@ -127,7 +127,7 @@ def check(prop, tier, seed):
     t_start = time.time()
     meta = PROPS[prop]
     findings, fixed = load_known()
-    lock = load_lock().get(prop, [])
+    lock = load_lock(prop)
     lines, violations, known_hits, undecided, crash = [], [], [], [], []
     ded = {}
     try:
@@ -304,18 +304,17 @@ def check(prop, tier, seed):
 
 
 def lock_cmd(which):
-    lock = load_lock()
     findings, _ = load_known()
     props = sorted(PROPS) if which == 'all' else [which]
+    os.makedirs(LOCKDIR, exist_ok=True)
     for prop in props:
         ded = deductive(prop, 'quick', 0, findings)
         if not ded.get('present'):
             continue
         names = sorted({base_name(r.name) for r in ded['results'] if r.status == 'unsat'})
         bad = [r.name for r in ded['results'] if r.status != 'unsat']
-        lock[prop] = names
+        json.dump(names, open(os.path.join(LOCKDIR, prop + '.json'), 'w'), indent=1)
         print(prop, len(names), 'obligations locked;', 'NOT discharged: %s' % bad if bad else 'all discharged', ded['ctx'].undecided)
-    json.dump(lock, open(LOCK, 'w'), indent=1, sort_keys=True)
 
 
 def main():
